@@ -185,6 +185,28 @@ def r05_2_3(prog, rep, direction):
     return n
 
 
+def r05_6(prog, rep, rule="R05.6"):
+    """Both abstract routine constructors store the annotation, its origin, the context and the variable faithfully."""
+    for d in ("marshal", "unmarshal"):
+        _, routines, base = C.DIRS[d]
+        c = prog.cls(f"{routines}.{base}")
+        init = c.methods.get("__init__")
+        if init is None:
+            rep.undecided(rule, c.qualname, c.loc, "abstract routine has no __init__")
+            continue
+        want = {
+            "t": lambda v: v == ("param", "t"),
+            "origin": lambda v: T.is_call_to(v, f"{C.INSP}.origin") and v[2] == (("param", "t"),),
+            "context": lambda v: v == ("param", "context"),
+            "var": lambda v: v == ("param", "var"),
+        }
+        for p in P.paths_of(prog, init):
+            stores = {e[2]: e[3] for e in p.events if e[0] == "setattr" and e[1] == C.SELF}
+            for attr, ok in want.items():
+                v = stores.get(attr)
+                rep.check(v is not None and ok(v), rule, init.qualname, init.loc, f"self.{attr} is stored faithfully", f"self.{attr} <- {T.show(v)[:60] if v else 'nothing'}: every routine of this direction is built on a wrong {attr}", detail=attr)
+
+
 def r05_4(prog, rep, facts):
     m, u = facts["marshal"], facts["unmarshal"]
     for name in ("check_arg", "ctor_arg", "shortcut", "fallback_arg", "var"):
@@ -200,6 +222,7 @@ def run(prog: Program, rep: Report, tier: str):
     rep.rule("R05.2", "applied member routines are context lookups by type argument / hint", floor=9)
     rep.rule("R05.3", "each slot meets its own component", floor=9)
     rep.rule("R05.4", "sibling agreement of the two api modules", floor=9)
+    rep.rule("R05.6", "abstract routine constructors store t, origin(t), context, var", floor=8)
     rep.rule("R05.5", "tolerant field-routine lookups see through forward references (TypeContext rules, shared with C16)", floor=5)
     facts = {}
     for d in ("marshal", "unmarshal"):
@@ -208,6 +231,7 @@ def run(prog: Program, rep: Report, tier: str):
         r05_2_3(prog, rep, d)
         facts[d] = dispatch_facts(prog, d)
     r05_4(prog, rep, facts)
+    r05_6(prog, rep)
     from ..report import Report as _R, absorb
     from . import c16
 
